@@ -34,8 +34,8 @@ class IkeSaController:
     def _get_ike_sa_by_spi(self, spi):
         return next(x for x in self.ike_sas if x.my_spi == spi)
 
-    def _get_ike_sa_by_peer_addr(self, peer_addr):
-        return next(x for x in self.ike_sas if x.peer_addr == peer_addr)
+    def _get_ike_sa_by_addrs(self, my_addr, peer_addr):
+        return next(x for x in self.ike_sas if x.peer_addr == peer_addr and x.my_addr == my_addr)
 
     def _get_ike_sa_by_child_sa_spi(self, spi):
         for ike_sa in self.ike_sas:
@@ -112,7 +112,7 @@ class IkeSaController:
 
         # look for an active IKE_SA with the peer
         try:
-            ike_sa = self._get_ike_sa_by_peer_addr(peer_addr)
+            ike_sa = self._get_ike_sa_by_addrs(my_addr, peer_addr)
         except StopIteration:
             my_addr = xfrm_acquire.saddr.to_ipaddr(family)
             ike_conf = self.configuration.get_ike_configuration(my_addr, peer_addr)
